@@ -103,7 +103,9 @@ def handler : Driver.Handler := fun c i => do
       if (badBatchTypes || badArrays) && !badBatchNames && planF == some result
          && batches.all (fun b => decimalOnly (b.map (·.2))) && arrays.all decimalOnly then some "C30-F4" else none
     | none => none
+  let preDict := (i.getObjValAs? Bool "pre_dict").toOption.getD false
   let tags := ["status:ok", if model.isSome then "model:typed" else "model:none", if nb == 0 then "batches:0" else "batches:some"]
+              ++ (if nb > 1 then ["batches>1"] else []) ++ (if preDict then ["dict-batch"] else [])
               ++ (if !kTypes then ["k:types"] else []) ++ (if !kNames then ["k:names"] else []) ++ tags0
   pure { model := modelJson, k := kTypes && kNames, oracle := o, nt := model.isSome || raw, tags := tags, attr := attr }
 
